@@ -11,10 +11,12 @@ TICK_MS = 10
 REASONS = [None, 0, 150, 50, (1 << 32) + 5, (1 << 64) - 1]      # index -> real reason code (index 0 unused)
 
 
-def lp_wrap(fragment, nack_reason='absent', token=None, extra=False, frag=None, empty_nack=False):
+def lp_wrap(fragment, nack_reason='absent', token=None, extra=False, frag=None, empty_nack=False, odd=False):
     """Build an NDNLPv2 LpPacket with the harness' own writer (independent of the library's encoder).
     Header order follows increasing type number, Fragment last."""
     hdr = []
+    if odd:
+        hdr.append((0x51, bytes(8)))                      # Sequence (not modelled by the library: unknown to it)
     if frag is not None:
         hdr.append((0x52, st.uint_bytes(frag[0])))
         hdr.append((0x53, st.uint_bytes(frag[1])))
@@ -27,6 +29,9 @@ def lp_wrap(fragment, nack_reason='absent', token=None, extra=False, frag=None, 
         hdr.append((0x032C, st.uint_bytes(300)))          # IncomingFaceId
         hdr.append((0x0340, st.uint_bytes(1)))            # CongestionMark
         hdr.append((0x0354, b'\x01\x02'))                 # unknown, ignorable (800..959, low bits 00)
+    if odd:
+        hdr.append((0x0341, b'\x07'))                     # unknown, odd type number
+        hdr.append((0x0355, b''))                         # unknown, odd type number, empty
     body = hdr + ([(0x50, bytes(fragment))] if fragment is not None else [])
     return st.write_tlv([(0x64, body)])
 
@@ -85,7 +90,7 @@ class PitRun:
     def wrap(self, wire, env, **kw):
         if env == 'bare':
             return wire
-        return lp_wrap(wire, extra=(env == 'lph'), **kw)
+        return lp_wrap(wire, extra=(env == 'lph'), odd=(env == 'lpo'), **kw)
 
     def npit(self):
         tree = self.app._pit if self.front == 'v2' else self.app._int_tree
@@ -201,7 +206,7 @@ class PitRun:
             reason = REASONS[ev['r']]
             # reason code 0 in a plain LP envelope is sent as a Nack header *without* NackReason (NDNLPv2: absent = 0)
             w = lp_wrap(iw, nack_reason=('absent' if (reason == 0 and ev['env'] == 'lp') else reason),
-                        extra=(ev['env'] == 'lph'), empty_nack=(reason == 0 and ev['env'] == 'lp'))
+                        extra=(ev['env'] == 'lph'), odd=(ev['env'] == 'lpo'), empty_nack=(reason == 0 and ev['env'] == 'lp'))
             ex = deliver(self.sess, self.face, w, timers_now=False)
             if ex is not None:
                 self.bg.append('receive:' + type(ex).__name__)
